@@ -564,6 +564,134 @@ fn run_space(id: &str, tier: Tier, space: usize, name: &str, size: u64, cpu_ms: 
 }
 
 // ------------------------------------------------------------------------------------------
+// libFuzzer campaign
+
+fn fuzz_stage(id: &str, tier: Tier, seed: u64, bin: &str, tape_max: usize, cpu_ms: u32) -> Result<(serde_json::Value, Option<Violation>), String> {
+    let text_mode = crate::fuzz::TEXT_PROPS.contains(&id);
+    let procs: usize = std::env::var("VP_FUZZ_PROCS").ok().and_then(|s| s.parse().ok()).unwrap_or(8);
+    let runs: u64 = std::env::var("VP_FUZZ_RUNS").ok().and_then(|s| s.parse().ok()).unwrap_or(150_000);
+    let work = format!("{}/engine/target/fuzz-work/{}", known::root(), id);
+    let _ = std::fs::remove_dir_all(&work);
+    let mut children = vec![];
+    for k in 0..procs {
+        let corpus = format!("{}/corpus-{}", work, k);
+        let arts = format!("{}/artifacts-{}/", work, k);
+        std::fs::create_dir_all(&corpus).map_err(|e| e.to_string())?;
+        std::fs::create_dir_all(&arts).map_err(|e| e.to_string())?;
+        // seeds: committed corpus files and the tapes / texts of saved replays
+        let mut n = 0;
+        for dir in [format!("{}/corpus/{}", known::root(), id), format!("{}/replays/{}", known::root(), id)] {
+            if let Ok(rd) = std::fs::read_dir(&dir) {
+                let mut files: Vec<_> = rd.filter_map(|e| e.ok()).map(|e| e.path()).collect();
+                files.sort();
+                for f in files {
+                    let bytes: Option<Vec<u8>> = if f.extension().map(|x| x == "json").unwrap_or(false) {
+                        match load_replay(&f.to_string_lossy()) {
+                            Ok(ReplayKind::Tape { tape, .. }) if !text_mode => Some(tape),
+                            Ok(ReplayKind::Text { text }) if text_mode => Some(text.into_bytes()),
+                            _ => None,
+                        }
+                    } else {
+                        std::fs::read(&f).ok()
+                    };
+                    if let Some(b) = bytes {
+                        let _ = std::fs::write(format!("{}/seed-{:04}", corpus, n), b);
+                        n += 1;
+                    }
+                }
+            }
+        }
+        let log = std::fs::File::create(format!("{}/log-{}.txt", work, k)).map_err(|e| e.to_string())?;
+        let child = std::process::Command::new(bin)
+            .env("VP_PROP", id)
+            .env("VP_ROOT", known::root())
+            .arg(format!("-runs={}", runs))
+            .arg(format!("-seed={}", (seed as u32 as u64).wrapping_mul(31).wrapping_add(k as u64 + 1) & 0x7fff_ffff))
+            .arg(format!("-max_len={}", if text_mode { 2048 } else { tape_max }))
+            .arg("-len_control=0")
+            .arg("-timeout=25")
+            .arg("-rss_limit_mb=3000")
+            .arg("-print_final_stats=1")
+            .arg(format!("-artifact_prefix={}", arts))
+            .arg(&corpus)
+            .stdin(std::process::Stdio::null())
+            .stdout(std::process::Stdio::null())
+            .stderr(log)
+            .spawn()
+            .map_err(|e| format!("cannot start the fuzz target {}: {}", bin, e))?;
+        children.push(child);
+    }
+    let mut total_runs = 0u64;
+    let mut cov = 0u64;
+    let mut ft = 0u64;
+    let mut corp = 0u64;
+    let mut artifacts: Vec<String> = vec![];
+    for (k, mut c) in children.into_iter().enumerate() {
+        let _ = c.wait();
+        let log = std::fs::read_to_string(format!("{}/log-{}.txt", work, k)).unwrap_or_default();
+        for line in log.lines() {
+            if let Some(r) = line.strip_prefix("stat::number_of_executed_units:") {
+                total_runs += r.trim().parse::<u64>().unwrap_or(0);
+            }
+            if line.starts_with('#') && line.contains(" cov: ") {
+                let get = |key: &str| line.split(key).nth(1).and_then(|x| x.split_whitespace().next()).and_then(|x| x.split('/').next()).and_then(|x| x.parse::<u64>().ok()).unwrap_or(0);
+                cov = cov.max(get(" cov: "));
+                ft = ft.max(get(" ft: "));
+                corp = corp.max(get(" corp: "));
+            }
+        }
+        if let Ok(rd) = std::fs::read_dir(format!("{}/artifacts-{}", work, k)) {
+            for e in rd.filter_map(|e| e.ok()) {
+                artifacts.push(e.path().to_string_lossy().into_owned());
+            }
+        }
+    }
+    artifacts.sort();
+    // every artifact is re-executed through the strict replay path; only a confirmed failure is a violation
+    let mut confirmed: Option<Violation> = None;
+    let mut unconfirmed = 0u64;
+    let mut w = WorkerHandle::new(id, tier);
+    for a in &artifacts {
+        let bytes = std::fs::read(a).unwrap_or_default();
+        let kind = if text_mode {
+            match String::from_utf8(bytes) {
+                Ok(t) => ReplayKind::Text { text: t },
+                Err(_) => {
+                    unconfirmed += 1;
+                    continue;
+                }
+            }
+        } else {
+            ReplayKind::Tape { tape: bytes, avoid: true }
+        };
+        match exec_kind(&mut w, &kind, true, cpu_ms) {
+            Exec::Fail { assertion, message, rendering } => {
+                // minimise tapes with the delta debugger before reporting
+                let kind = match kind {
+                    ReplayKind::Tape { tape, avoid } => {
+                        let mut evals = 0;
+                        ReplayKind::Tape { tape: ddmin(&mut w, tape, avoid, cpu_ms.min(2000), &mut evals), avoid }
+                    }
+                    k => k,
+                };
+                let (assertion, message, rendering) = match exec_kind(&mut w, &kind, true, cpu_ms) {
+                    Exec::Fail { assertion, message, rendering } => (assertion, message, rendering),
+                    _ => (assertion, message, rendering),
+                };
+                if confirmed.is_none() {
+                    confirmed = Some(Violation { front_end: "libFuzzer".into(), kind, assertion, message, rendering, existing_path: None });
+                }
+            }
+            Exec::Infra(e) => return Err(e),
+            _ => unconfirmed += 1,
+        }
+    }
+    let stats = json!({"front_end": "libFuzzer (coverage-guided, same decode+check in-target)", "processes": procs, "runs_per_process": runs, "runs": total_runs, "input": if text_mode { "raw text" } else { "choice tape" },
+        "cov": cov, "ft": ft, "corpus": corp, "artifacts": artifacts.len(), "artifacts_not_confirmed_by_strict_replay": unconfirmed});
+    Ok((stats, confirmed))
+}
+
+// ------------------------------------------------------------------------------------------
 // top level
 
 pub fn env_seed() -> u64 {
@@ -801,6 +929,24 @@ pub fn run_main(id: &str, tier: Tier) -> i32 {
             "confirm_lanes_for_known_findings": confirm_lanes, "wall_s": t1.elapsed().as_secs_f64()}));
     }
     ev.exhaustive_all = any_enum && all_exhaustive && !random_ran;
+
+    // 3b. coverage-guided libFuzzer campaign over the same decode + check pair (thorough tier; the wrapper builds the
+    // target and passes its path)
+    if violation.is_none() && error.is_none() {
+        if let Ok(bin) = std::env::var("VP_FUZZ_BIN") {
+            let t1 = std::time::Instant::now();
+            match fuzz_stage(id, tier, seed, &bin, budget.tape_max, cpu_ms) {
+                Ok((stats, v)) => {
+                    ev.evaluations += stats["runs"].as_u64().unwrap_or(0);
+                    let mut st = stats;
+                    st["wall_s"] = json!(t1.elapsed().as_secs_f64());
+                    ev.sub_runs.push(st);
+                    violation = v;
+                }
+                Err(e) => error = Some(e),
+            }
+        }
+    }
 
     // 4. outcome
     if inner > 0 {
